@@ -411,7 +411,7 @@ fn lookup_cell<T>(env: &REnv, name: &str, f: &mut dyn FnMut(Option<&Obj>, bool) 
     }
 }
 
-fn observe_vars(env: &REnv, names: &[String], share: bool) -> (Value, Value) {
+fn observe_vars(env: &REnv, names: &[String], share: bool, values: bool) -> (Value, Value) {
     let mut vars = Map::new();
     let mut sh = Map::new();
     for name in names {
@@ -433,6 +433,7 @@ fn observe_vars(env: &REnv, names: &[String], share: bool) -> (Value, Value) {
         let v = match state {
             0 => json!({"absent": true}),
             1 => json!({"borrowed": true}),
+            _ if !values => json!({"present": true}),
             _ => safe_canon(val.as_ref().unwrap()),
         };
         vars.insert(name.clone(), v);
@@ -469,6 +470,8 @@ fn job_eval(job: &Value, id: &str, w: &mut impl Write) -> Value {
     let child_each = job.get("child_each").and_then(|v| v.as_bool()).unwrap_or(false);
     let rebase_every = job.get("rebase_every").and_then(|v| v.as_u64()).unwrap_or(64) as usize;
     let share = job.get("share").and_then(|v| v.as_bool()).unwrap_or(false);
+    // observe_values=false: report only presence (and sharing info) of the observed variables
+    let observe_values = job.get("observe_values").and_then(|v| v.as_bool()).unwrap_or(true);
     let want_alloc = job.get("alloc").and_then(|v| v.as_bool()).unwrap_or(false);
     let want_value = job.get("values").and_then(|v| v.as_bool()).unwrap_or(true);
     // touch: canonicalise results (iterating the head of lazy streams) even when values are not sent
@@ -537,7 +540,7 @@ fn job_eval(job: &Value, id: &str, w: &mut impl Write) -> Value {
             m.insert("alloc".into(), alloc_delta(a0, a1));
         }
         if !observe.is_empty() {
-            let (vars, sh) = observe_vars(&env, &observe, share);
+            let (vars, sh) = observe_vars(&env, &observe, share, observe_values);
             m.insert("vars".into(), vars);
             if share {
                 m.insert("sh".into(), sh);
